@@ -32,10 +32,13 @@ type Comp struct {
 	Backends []string `json:"backends"` // one cache per element
 	Steps    []CStep  `json:"steps"`
 	FinalUp  bool     `json:"final_up"` // last change raises (true) or lowers (false) the limit
+	// BudgetAfter: after the last limit change an accepted memory_budget_percent change follows (to a value that
+	// does not bind): the limit the caches follow must still be the last max_cache_size
+	BudgetAfter bool `json:"budget_after,omitempty"`
 }
 
 type CStep struct {
-	Kind    string `json:"kind"` // destroy | change
+	Kind    string `json:"kind"` // destroy | change (max_cache_size) | budget (memory_budget_percent)
 	Which   int    `json:"which,omitempty"`
 	PauseMs int    `json:"pause_ms,omitempty"` // pause after a change (0 = back-to-back)
 }
@@ -51,7 +54,7 @@ type ckey = cache.CacheKey
 func keyN(c, i int) ckey { return cache.FromString(fmt.Sprintf("c19-%d-%d", c, i)) }
 
 var subComp = ev.Register("components-follow-limit",
-	"2-4 caches (memory/file) subscribed to one configuration; a drawn sequence of accepted max_cache_size changes (alternating low/high, some back-to-back) and cache shut-downs in any order; after the last change and a quiescence pause every surviving cache is probed through its store-triggered eviction: filled to between the low and the high limit, one more store must (low) or must not (high) evict; shutting caches down must not fail; non-trivial = a cache subscribed earlier was shut down before a later change, with survivors; distinct by (backends, step sequence)",
+	"2-4 caches (memory/file) subscribed to one configuration; a drawn sequence of accepted max_cache_size changes (alternating low/high, some back-to-back), memory_budget_percent changes (to values that do not bind) and cache shut-downs in any order; optionally two more budget changes after the last limit change; after the last change and a quiescence pause every surviving cache is probed through its store-triggered eviction: filled to between the low and the high limit, one more store must (low) or must not (high) evict; shutting caches down must not fail; non-trivial = a cache subscribed earlier was shut down before a later change, with survivors; distinct by (backends, step sequence)",
 	func(c Comp, o *ev.Obs) *ev.Failure {
 		dir, err := os.MkdirTemp("", "verif-c19-")
 		if err != nil {
@@ -91,6 +94,7 @@ var subComp = ev.Register("components-follow-limit",
 			}
 		}()
 		cur := highLimit
+		budget := 50
 		earlyDestroy := false
 		changes := 0
 		var pan any
@@ -125,6 +129,12 @@ var subComp = ev.Register("components-follow-limit",
 					}
 					changes++
 					time.Sleep(time.Duration(st.PauseMs) * time.Millisecond)
+				case "budget":
+					budget = 30 + (budget+7)%60
+					if _, err := config.UpdatePartialFromConfig(cfg, map[string]any{"cache": map[string]any{"memory": map[string]any{"memory_budget_percent": budget}}}); err != nil {
+						panic(fmt.Sprintf("accepted change rejected: %v", err))
+					}
+					time.Sleep(time.Duration(st.PauseMs) * time.Millisecond)
 				}
 			}
 		}()
@@ -157,6 +167,15 @@ var subComp = ev.Register("components-follow-limit",
 			return f
 		}
 		time.Sleep(30 * time.Millisecond) // quiescence for the asynchronous notification of the last, isolated change
+		if c.BudgetAfter {
+			for _, pct := range []int{60, 70} {
+				if _, err := config.UpdatePartialFromConfig(cfg, map[string]any{"cache": map[string]any{"memory": map[string]any{"memory_budget_percent": pct}}}); err != nil {
+					return ev.Failf("comp.harness", "%v", err)
+				}
+				time.Sleep(30 * time.Millisecond)
+			}
+		}
+		o.Classf("budget-change-after-limit:%v", c.BudgetAfter)
 		o.Classf("caches:%d", len(c.Backends))
 		o.Classf("early-destroy:%v", earlyDestroy)
 		o.Classf("final:%s", map[bool]string{true: "raised", false: "lowered"}[c.FinalUp])
@@ -222,11 +241,14 @@ func TestComponentsFollowLimit(t *testing.T) {
 		for i := rapid.IntRange(1, 6).Draw(t, "steps"); i > 0; i-- {
 			if rapid.IntRange(0, 2).Draw(t, "kind") == 0 {
 				c.Steps = append(c.Steps, CStep{Kind: "destroy", Which: rapid.IntRange(0, 3).Draw(t, "which")})
+			} else if rapid.IntRange(0, 3).Draw(t, "budget") == 0 {
+				c.Steps = append(c.Steps, CStep{Kind: "budget", PauseMs: rapid.SampledFrom([]int{0, 5}).Draw(t, "pause")})
 			} else {
 				c.Steps = append(c.Steps, CStep{Kind: "change", PauseMs: rapid.SampledFrom([]int{0, 0, 5}).Draw(t, "pause")})
 			}
 		}
 		c.FinalUp = rapid.Bool().Draw(t, "final-up")
+		c.BudgetAfter = rapid.Bool().Draw(t, "budget-after")
 		return c
 	})
 }
